@@ -120,16 +120,25 @@ def drive_script(sc):
         kinds = item["kind"]
         # consume results first (they tell what was evaluated)
         got_f = got_g = False
-        while si < len(results):
-            r = results[si]
-            if isinstance(r, FunctionResults) and not got_f and not got_g:
-                got_f = True; need_res.append(r); si += 1
-            elif isinstance(r, GradientResults) and not got_g:
-                got_g = True; need_res.append(r); si += 1
-            elif isinstance(r, FunctionResults) and got_g and not got_f:
-                got_f = True; need_res.append(r); si += 1
-            else:
-                break
+
+        def is_f(i):
+            return i < len(results) and isinstance(results[i], FunctionResults)
+
+        def is_g(i):
+            return i < len(results) and isinstance(results[i], GradientResults)
+        if kinds == "f":
+            if is_f(si):
+                got_f = True; need_res.append(results[si]); si += 1
+        elif kinds == "g":
+            if is_f(si) and is_g(si + 1):           # the gradient needed fresh function values: one combined evaluation
+                got_f = got_g = True; need_res += results[si:si + 2]; si += 2
+            elif is_g(si):
+                got_g = True; need_res.append(results[si]); si += 1
+        else:
+            if is_f(si):
+                got_f = True; need_res.append(results[si]); si += 1
+            if is_g(si):
+                got_g = True; need_res.append(results[si]); si += 1
         nrows = (R if got_f else 0) + (R * P if got_g else 0)
         need_rows = rows[ri: ri + nrows]; ri += nrows
         nested_vec = nested_log[n] if n < len(nested_log) else None
@@ -191,6 +200,8 @@ def drive_real(sc):
            "optimizer": {"method": sc["method"], "max_functions": 8, "speculative": bool(sc.get("speculative"))}}
     if sc["method"] == "differential_evolution":
         cfg["optimizer"].update({"parallel": bool(sc.get("parallel")), "options": {"seed": 1, "popsize": 2, "maxiter": 2}})
+    if sc.get("sampler"):
+        cfg["samplers"] = [{"method": sc["sampler"]}]
     if sc.get("two"):
         cfg["samplers"] = [{"method": "norm"}, {"method": "uniform"}]
         free = [i for i, m in enumerate(mask) if m]
@@ -226,6 +237,7 @@ def extra_scenarios(tier, seed):
     masks = [[True, False, True], [False, False, True], [True, True, False]]
     for mask in masks:
         for method, kw in (("slsqp", {}), ("slsqp", {"speculative": True}), ("slsqp", {"two": True}), ("nelder-mead", {}), ("powell", {}),
+                           ("slsqp", {"sampler": "sobol"}), ("slsqp", {"sampler": "lhs"}), ("slsqp", {"sampler": "halton"}), ("slsqp", {"sampler": "uniform"}),
                            ("l-bfgs-b", {}), ("differential_evolution", {}), ("differential_evolution", {"parallel": True})):
             if kw.get("two") and sum(mask) < 2:
                 continue
